@@ -37,6 +37,7 @@ def entries():
         dict(index=0x2400, name="p_small", type="UNSIGNED16", default=0x1234),
         dict(index=0x2401, name="p_str", type="VISIBLE_STRING", default="ABCDEFGHIJKLMNO"),
         dict(index=0x2402, name="p_dom", type="DOMAIN", default=None),
+        dict(index=0x2403, name="p_long", type="VISIBLE_STRING", default="".join(chr(48 + i % 75) for i in range(2100))),
     ]
     i = 0
     for acc in ("rw", "ro", "wo", "const"):
@@ -115,7 +116,8 @@ def refusals():
             out.append((f"wrong-length:seg:{t}:{L}", "download",
                         dict(key=(0x2100 + k, 0), data=bytes(range(1, L + 1)), mode="seg_size" if L % 2 else "seg_nosize"),
                         codes))
-    for which in (1, 2):
+    for which in (1, 2, 3, 127, 128, 129, 255, 256, 257):
+        # (beyond 2: long transfers - a segment counter that wraps must not disturb the toggle rule)
         out.append((f"toggle:upload-segment-{which}", "ul_toggle", dict(which=which), {cia301.ABORT_TOGGLE}))
         out.append((f"toggle:download-segment-{which}", "dl_toggle", dict(which=which), {cia301.ABORT_TOGGLE}))
     out.append(("ccs7", "raw", dict(frame=bytes([0xE0]) + struct.pack("<HB", 0x2400, 0) + bytes(4)), {cia301.ABORT_CMD}))
@@ -235,7 +237,7 @@ def do_refusal(sim, ref):
                 return rs, {mux}
             t ^= 1
     if kind == "ul_toggle":
-        mux = struct.pack("<HB", 0x2401, 0)
+        mux = struct.pack("<HB", 0x2401 if p["which"] <= 2 else 0x2403, 0)
         send(bytes([0x40]) + mux + bytes(4))
         t = 0
         for _ in range(p["which"] - 1):
